@@ -170,6 +170,12 @@ def check_run(res, ctx=None):
     findings = []
     ptol, vtol = td.tolerances(case)
     cfgt = td.cfg_text(case, ptol, vtol)
+    if getattr(res, "scribble", None):
+        ph = res.phases[-1]
+        o = driver.run_lines(["tree inv %s %d %s" % (cfgt, max(ph["budget"], ph["prev_sims"]), res.scribble["after"])])[0]
+        clause = o.split(":", 2)[2] if o.startswith("fail:") else "tree changed"
+        findings.append(Finding("predicate", CLAUSE_KEY.get(clause, "priors-not-renormalised"),
+                                "after the caller wrote into the distributions tree_probs() had returned, the tree itself changed (TreeInv: %s)" % o[:120]))
     if res.pos_after != res.pos_before:
         findings.append(Finding("predicate", "position-mutated", "searched position changed from [%s] to [%s]" % (res.pos_before, res.pos_after)))
     if res.error is not None and getattr(res, "unreadable", None) is not None:
